@@ -99,6 +99,57 @@ func readOf(fn *ssa.Function, v ssa.Value) (fieldRead, bool) {
 	return fieldRead{}, false
 }
 
+// exprKey canonicalises an arithmetic expression over the fields of ONE element (i or j): it returns
+// the side, a side-independent key such as "(EndTokenIndex-StartTokenIndex)" and the linear
+// coefficients of the fields it mentions (nil when the expression is not linear).
+func exprKey(fn *ssa.Function, v ssa.Value) (side int, key string, lin map[string]int64, ok bool) {
+	if r, isRead := readOf(fn, v); isRead {
+		return r.side, r.field, map[string]int64{r.field: 1}, true
+	}
+	switch x := v.(type) {
+	case *ssa.Const:
+		if x.Value == nil {
+			return -1, "nil", map[string]int64{}, true
+		}
+		return -1, x.Value.ExactString(), map[string]int64{}, true
+	case *ssa.Convert:
+		return exprKey(fn, x.X)
+	case *ssa.BinOp:
+		switch x.Op {
+		case token.ADD, token.SUB, token.MUL:
+		default:
+			return 0, "", nil, false
+		}
+		s1, k1, l1, ok1 := exprKey(fn, x.X)
+		s2, k2, l2, ok2 := exprKey(fn, x.Y)
+		if !ok1 || !ok2 {
+			return 0, "", nil, false
+		}
+		sd := s1
+		if sd == -1 {
+			sd = s2
+		} else if s2 != -1 && s2 != s1 {
+			return 0, "", nil, false // mixes both elements
+		}
+		var lin map[string]int64
+		if l1 != nil && l2 != nil && (x.Op == token.ADD || x.Op == token.SUB) {
+			lin = map[string]int64{}
+			for f, c := range l1 {
+				lin[f] += c
+			}
+			for f, c := range l2 {
+				if x.Op == token.ADD {
+					lin[f] += c
+				} else {
+					lin[f] -= c
+				}
+			}
+		}
+		return sd, "(" + k1 + x.Op.String() + k2 + ")", lin, true
+	}
+	return 0, "", nil, false
+}
+
 func evalTri(op token.Token, r tri) bool {
 	switch op {
 	case token.EQL:
@@ -172,13 +223,13 @@ func evalLess(fn *ssa.Function, rel map[string]tri) (res bool, err error) {
 				}
 				return rel[a.field] == 0
 			}
-			a, ok1 := readOf(fn, x.X)
-			b, ok2 := readOf(fn, x.Y)
-			if !ok1 || !ok2 || a.field != b.field || a.side == b.side {
-				panic(undecidedErr("comparison that is not field-of-i against the same field-of-j: " + x.String()))
+			sa, ka, _, ok1 := exprKey(fn, x.X)
+			sb, kb, _, ok2 := exprKey(fn, x.Y)
+			if !ok1 || !ok2 || ka != kb || sa == sb || sa < 0 || sb < 0 {
+				panic(undecidedErr("comparison that is not an expression over element i against the same expression over element j: " + x.String()))
 			}
-			r := rel[a.field]
-			if a.side == 1 {
+			r := rel[ka]
+			if sa == 1 {
 				r = -r
 			}
 			return evalTri(x.Op, r)
@@ -255,15 +306,19 @@ func AnalyzeLess(fn *ssa.Function) *CmpResult {
 		}
 	}
 	fields := map[string]bool{}
+	keyLin := map[string]map[string]int64{}
 	for _, b := range fn.Blocks {
 		for _, ins := range b.Instrs {
 			switch x := ins.(type) {
 			case *ssa.BinOp:
-				if a, ok := readOf(fn, x.X); ok {
-					fields[a.field] = true
-				}
-				if a, ok := readOf(fn, x.Y); ok {
-					fields[a.field] = true
+				switch x.Op {
+				case token.EQL, token.NEQ, token.LSS, token.LEQ, token.GTR, token.GEQ:
+					sa, ka, la, ok1 := exprKey(fn, x.X)
+					sb, kb, _, ok2 := exprKey(fn, x.Y)
+					if ok1 && ok2 && ka == kb && sa != sb && sa >= 0 && sb >= 0 {
+						fields[ka] = true
+						keyLin[ka] = la
+					}
 				}
 			case *ssa.Call:
 				// any call other than math.Abs in the float-equality idiom is unsupported
@@ -283,8 +338,37 @@ func AnalyzeLess(fn *ssa.Function) *CmpResult {
 			et = p.Elem()
 		}
 		if st, ok := et.Underlying().(*types.Struct); ok {
+			// a field is determined when it is compared directly, or when a compared linear key mentions
+			// it and every other field of that key is determined (e.g. End from End-Start and Start)
+			determined := map[string]bool{}
+			for k := range fields {
+				if l := keyLin[k]; l != nil && len(l) == 1 {
+					for f := range l {
+						determined[f] = true
+					}
+				}
+			}
+			for changed := true; changed; {
+				changed = false
+				for k := range fields {
+					l := keyLin[k]
+					if l == nil {
+						continue
+					}
+					var unknown []string
+					for f, c := range l {
+						if c != 0 && !determined[f] {
+							unknown = append(unknown, f)
+						}
+					}
+					if len(unknown) == 1 {
+						determined[unknown[0]] = true
+						changed = true
+					}
+				}
+			}
 			for i := 0; i < st.NumFields(); i++ {
-				if !fields[st.Field(i).Name()] {
+				if !determined[st.Field(i).Name()] {
 					res.NotCompared = append(res.NotCompared, st.Field(i).Name())
 				}
 			}
